@@ -10,7 +10,8 @@ namespace Zeno.Repl
 
 /-- name the fields of the invariant -/
 macro "inv_fields" hi:ident : tactic => `(tactic|
-  have ⟨walSorted, exMem, exDisk, exSnap, memTop, diskTop, snapTop, priorTop, memLePrior, pendSorted,
+  have ⟨walSorted, exMem, exDisk, exSnap, memTop, diskTop, snapTop, offTop, snapOffTop, offExact, snapOffExact,
+    dirtyInv, diskLeMem, offLeMem, priorTop, memLePrior, pendSorted,
     pendRange, pendCover, earliestLe, earliestTop, connUp, linkConn, queueDown, reqLe, reqTop, specJoined, specLink, specLeDone,
     doneTop, cursorLeDone, gap, queueSorted, queueDone, queueWal, linkCover, inflUp, inflWal, inflDone, inflGap⟩ := $hi)
 
@@ -52,12 +53,30 @@ theorem inv_snapshot {cx : Ctx} {s s' : State} (hi : Inv cx s) (f : FId)
   constructor
   all_goals (intros; try grind [List.Pairwise.nil])
 
-theorem inv_persist {cx : Ctx} {s s' : State} (hi : Inv cx s) (f : FId) (t : TId)
-    (h : step cx s (.persist f t) = some s') : Inv cx s' := by
+theorem inv_persist_data {cx : Ctx} {s s' : State} (hi : Inv cx s) (f : FId) (t : TId)
+    (h : step cx s (.persist f t true) = some s') : Inv cx s' := by
   simp only [step] at h
   split at h
   · simp only [Option.some.injEq] at h
     subst h
+    inv_fields hi
+    constructor
+    all_goals (intros; try grind [List.Pairwise.nil])
+  · cases h
+
+theorem inv_persist_offsets {cx : Ctx} {s s' : State} (hi : Inv cx s) (f : FId) (t : TId)
+    (h : step cx s (.persist f t false) = some s') : Inv cx s' := by
+  simp only [step] at h
+  split at h
+  · simp only [Option.some.injEq] at h
+    subst h
+    rename_i hguard
+    -- the memstore is empty: what it reflects is what the filestore holds
+    have hd := hi.dirtyInv f t hguard.1 hguard.2
+    have hx : ∀ l, Exact cx (s.wal l) t f (s.memOff f t l) (s.diskApps f t l) := by
+      intro l
+      rw [← hd l]
+      exact hi.exMem f t l
     inv_fields hi
     constructor
     all_goals (intros; try grind [List.Pairwise.nil])
